@@ -224,9 +224,16 @@ def sample(module, fn_name, lo, hi, n, seed):
             return value(rnd.choice(args), False)
         return None
 
+    pres = [ln.split("pre:", 1)[1].strip() for ln in doc.splitlines() if ln.strip().startswith("pre:")]
     fails, ran = [], 0
     for i in range(int(n)):
         args = [value(hints.get(nm, int), k == 0, nm) for k, nm in enumerate(names)]
+        try:
+            ok = all(eval(pre, dict(vars(m)), dict(zip(names, args))) for pre in pres)
+        except Exception:  # noqa
+            ok = False
+        if not ok:
+            continue        # the contract's precondition excludes this input
         try:
             r = fn(*args)
         except AssertionError as e:
